@@ -24,8 +24,8 @@ OWNER = {
     "other.active": "C08", "other.acl": "C12", "other.enforce": "C12", "other.asof": "C11", "other.error": "C12",
 }
 ALSO = {"search.active": ["C10"], "search.sound": ["C28"], "vsearch.same": ["C13"]}
-DEV_OWNER = {"D09_sketch_recall": "C09", "D09_slices_crowd": "C09", "D16_pagination": "C16"}
-AS_BUILT = eng_core.AS_BUILT + ["D16_pagination", "D09_slices_crowd"]
+DEV_OWNER = {"D09_sketch_recall": "C09", "D09_slices_crowd": "C09", "D16_pagination": "C16", "D16_slice_cap": "C16", "D16_candidate_window": "C16"}
+AS_BUILT = eng_core.AS_BUILT + ["D16_pagination", "D09_slices_crowd", "D16_slice_cap", "D16_candidate_window"]
 
 VOCAB_WORDS = ["alpha", "bravo", "carbon", "delta", "ember", "fjord", "gamma", "harbor", "connected", "connection", "walked", "walking"]
 NW = len(VOCAB_WORDS)
@@ -196,10 +196,12 @@ def pagination_scenario(rng, n, quick):
     ops = [{"op": "create"}]
     for i in range(n):
         words = [0] + ([1] if i % 3 == 0 else [])
-        ops.append({"op": "put", "uri": "mv2://p/%d" % i, "pay": i + 1, "cls": "text", "size": rng.choice([40, 90, 200]), "ts": i % 7,
+        # every fifth document mentions its words at both ends (two snippet slices: a page may end inside it)
+        ops.append({"op": "put", "uri": "mv2://p/%d" % i, "pay": i + 1, "cls": "text2" if i % 5 == 2 else "text", "size": 700 if i % 5 == 2 else rng.choice([40, 90, 200]),
+                    "ts": (i * 37) % 7 * 86400,
                     "words": words, "atoms": ["w%d" % w for w in words]})
     ops.append({"op": "commit"})
-    for tk in ([1, 7] if quick else [1, 2, 3, 7, 10, 25]):
+    for tk in ([1, 2, 3, 7] if quick else [1, 2, 3, 4, 7, 10, 25]):
         for w in (0, 1):
             ops.append({"op": "search", "toks": ["w%d" % w], "top_k": tk, "paged": True, "no_sketch": rng.random() < 0.5})
     ops += [{"op": "close"}, {"op": "open"}, {"op": "search", "toks": ["w0"], "top_k": 4, "paged": True, "no_sketch": True}, {"op": "close"}]
@@ -225,7 +227,33 @@ def recall_scenario(rng, n, quick):
     for w, k in ((9, 5), (9, 4), (11, 3), (11, 5), (10, 3), (10, 6)):
         for ns in (False, True):
             qs.append({"op": "search", "toks": ["w%d" % w], "single": "w%d" % w, "top_k": k, "no_sketch": ns})
+    # C11: a cut-off before the first document that contains the word (nothing admissible matches), pre-filter on and off
+    for w in (9, 11):
+        first = min(rare[w])
+        if first > 0:
+            for ns in (False, True):
+                qs.append({"op": "search", "toks": ["w%d" % w], "top_k": 10, "as_of_frame": first - 1, "with_base": True, "no_sketch": ns})
+        qs.append({"op": "search", "toks": ["w%d" % w], "top_k": 10, "as_of_ts": -1, "with_base": True, "no_sketch": False})
     ops += qs + [{"op": "close"}, {"op": "open"}] + [dict(q) for q in qs] + [{"op": "close"}, {"op": "open_ro"}] + [dict(q) for q in qs[:4]] + [{"op": "close"}]
+    return ops
+
+
+def pagination_small(rng, quick):
+    """C16 where nothing as built excuses a difference: fewer matching documents than the smallest candidate window (20), some
+    of them with two snippet slices, timestamps days apart and not in insertion order, every page size from 1 to 10."""
+    ops = [{"op": "create"}]
+    n = 16
+    for i in range(n):
+        words = [0] + ([1] if i % 3 == 0 else [])
+        two = i % 4 == 1
+        ops.append({"op": "put", "uri": "mv2://ps/%d" % i, "pay": i + 1, "cls": "text2" if two else "text", "size": 700 if two else rng.choice([60, 150, 300]),
+                    "ts": 1700000000 + ((i * 5) % 11) * 86400 * 2, "words": words, "atoms": ["w%d" % w for w in words]})
+    ops.append({"op": "commit"})
+    qs = []
+    for tk in ([1, 2, 3, 5, 10] if quick else list(range(1, 11))):
+        for w in (0, 1):
+            qs.append({"op": "search", "toks": ["w%d" % w], "top_k": tk, "paged": True, "no_sketch": rng.random() < 0.5})
+    ops += qs + [{"op": "close"}, {"op": "open"}] + [dict(q) for q in qs[:6]] + [{"op": "close"}]
     return ops
 
 
@@ -263,6 +291,7 @@ def engine(tier):
     rng = random.Random(seed() * 3571 + (5 if quick else 6))
     scs = [{"id": 1, "ops": pagination_scenario(rng, 48 if quick else 90, quick)}]
     scs.append({"id": 2, "ops": recall_scenario(rng, 130 if quick else 190, quick)})
+    scs.append({"id": 3, "ops": pagination_small(rng, quick)})
     sizes = [6, 14, 30] if quick else [4, 8, 14, 24, 40, 60, 90, 120] * 3
     for n in sizes:
         scs.append({"id": len(scs) + 1, "ops": scenario(rng, quick, n)})
